@@ -178,32 +178,38 @@ def judge(pool, cfg, pump, limit=45):
 
 
 def model_candidates(ctx, per_pattern):
-    """structure-directed pumps on the counting model: [(growth, name, pump)] with super-quadratic step growth"""
+    """structure-directed pumps on the counting model: [(growth, name, pump)] with super-quadratic step growth.
+    Sizes grow in stages (5/10, 10/20, 24/48); a pump whose count explodes at a small size is a candidate at once and is
+    not evaluated at larger sizes (the model would need exponential time as well)."""
     import translate
     r = ctx.rng("model")
     pats = translate.all_patterns()
-    reqs, meta = [], []
-    n1, n2 = 24, 48
+    live = []
     for name, p, f in pats:
         pumps = pumpgen.pumps_for(p, f)
         if len(pumps) > per_pattern:
             pumps = r.sample(pumps, per_pattern)
-        for pump in pumps:
-            pre, u, suf = pump
+        live += [(name, pump) for pump in pumps]
+    out, n_req, total = [], 0, 0
+    for n1, n2, limit, minsteps in ((5, 10, 24.0, 1500), (10, 20, 24.0, 3000), (24, 48, 5.0, 3000)):
+        reqs = []
+        for name, (pre, u, suf) in live:
             reqs.append(("rx_cost", [name, pre + u * n1 + suf, 0]))
             reqs.append(("rx_cost", [name, pre + u * n2 + suf, 0]))
-            meta.append((name, pump))
-    res = run_model(reqs)
-    out = []
-    total = 0
-    for i, (name, pump) in enumerate(meta):
-        a, b = res[2 * i][1], res[2 * i + 1][1]
-        total += a + b
-        g = b / max(a, 1)
-        if b >= 3000 and g > 5.0:
-            out.append((g, name, pump))
+        res = run_model(reqs, timeout=300)
+        n_req += len(reqs)
+        keep = []
+        for i, (name, pump) in enumerate(live):
+            a, b = res[2 * i][1], res[2 * i + 1][1]
+            total += a + b
+            g = b / max(a, 1)
+            if b >= minsteps and g > limit:
+                out.append((g * (1000 if n2 < 48 else 1), name, pump))
+            else:
+                keep.append((name, pump))
+        live = keep
     out.sort(key=lambda t: -t[0])
-    return out, len(reqs), total
+    return out, n_req, total
 
 
 CONTEXTS = ["", "x ", "[a](b", "[a]: /u", "[a](", "[", "> ", "- ", "<a", "x <a b"]
@@ -238,7 +244,11 @@ def correspondence(ctx):
 
 def oracle(ctx, extra):
     r = ctx.rng("oracle")
-    cands, n_model, steps = model_candidates(ctx, ctx.n(40, 400))
+    try:
+        cands, n_model, steps = model_candidates(ctx, ctx.n(40, 400))
+        model_note = None
+    except Exception as e:  # noqa  (the model itself may need exponential time on a broken pattern)
+        cands, n_model, steps, model_note = [], 0, 0, "model pump stage failed: %s" % str(e)[:200]
     jobs = []
     # 1. candidates found on the model, placed in contexts that reach the pattern
     seen = set()
@@ -292,7 +302,7 @@ def oracle(ctx, extra):
         uniq.setdefault((f["prefix"].strip()[-6:], f["unit"], f["kind"]), f)
     fails = list(uniq.values())[:8]
     return {"evaluations": n, "distinct_nontrivial": n, "failures": fails, "input_distribution": dist,
-            "model_pump_evaluations": n_model, "model_character_tests": steps, "model_candidates": [[round(g, 1), nm, list(p)] for g, nm, p in cands[:15]],
+            "model_pump_evaluations": n_model, "model_note": model_note, "model_character_tests": steps, "model_candidates": [[round(g, 1), nm, list(p)] for g, nm, p in cands[:15]],
             "rule": "pumps prefix + unit^n + suffix: (1) super-quadratic candidates from the counting model (every repeat of every pattern, "
                     "sizes 24/48) in 10 document contexts; (2) %d classic shapes; (3) sampled units of one or two of %d Markdown tokens with "
                     "%d prefixes and %d suffixes; each under the configurations core / all plugins / all+speedup / rst, fenced and colon "
